@@ -58,7 +58,7 @@ class Outcome:
        pushed  - syntax nodes queued as nodes
        made    - whitespace atoms created (hardline/space/line/...), in order
        seq     - ordered list of ('atom', summary) / ('make', kind) for sequence rules"""
-    __slots__ = ('fn', 'parent', 'loops', 'items', 'atoms', 'pushed', 'made', 'seq', 'assumed', 'trace', 'status', 'events', 'result', 'stores', 'converts')
+    __slots__ = ('fn', 'parent', 'loops', 'items', 'atoms', 'pushed', 'made', 'seq', 'assumed', 'trace', 'status', 'events', 'result', 'stores', 'converts', 'converts_x')
 
     def __init__(self, **kw):
         self.events = None
@@ -76,7 +76,7 @@ class Outcome:
 
 class Whole:
     """a complete path through a converter that is not inside an iteration"""
-    __slots__ = ('fn', 'parent', 'passed', 'assumed', 'result', 'atoms', 'converts')
+    __slots__ = ('fn', 'parent', 'passed', 'assumed', 'result', 'atoms', 'converts', 'converts_x')
 
     def __init__(self, **kw):
         for k, v in kw.items():
@@ -292,13 +292,15 @@ class SiteEvaluator:
                                         atoms=event_atoms(evs), pushed=pushed_nodes(evs), made=made(evs), seq=seq,
                                         stores=[(e[1], freeze(e[2])) for e in evs if e[0] == 'store'],
                                         converts=[(e[1], freeze(e[2]), e[3], e[4]) for e in evs if e[0] == 'convert'],
+                                        converts_x=[(e[1], freeze(e[2]), e[3], e[4], e[5] if len(e) > 5 else ()) for e in evs if e[0] == 'convert'],
                                         assumed=list(r.assumed[-12:] if ctx_mode is None else r.assumed), trace=[], result=freeze(getattr(r, 'result', None)),
                                         status=r.outcome or ('return' if hasattr(r, 'result') else 'open')))
             else:
                 if hasattr(r, 'result'):
                     wholes.append(Whole(fn=b.short, parent=parent_kind, passed=list(getattr(r, 'passed_loops', [])), assumed=list(r.assumed),
                                         result=freeze(r.result), atoms=atoms_of(r.result) if isinstance(r.result, (Doc, Agg)) else [],
-                                        converts=[(e[1], freeze(e[2]), e[3], e[4]) for e in r.events if e[0] == 'convert']))
+                                        converts=[(e[1], freeze(e[2]), e[3], e[4]) for e in r.events if e[0] == 'convert'],
+                                        converts_x=[(e[1], freeze(e[2]), e[3], e[4], e[5] if len(e) > 5 else ()) for e in r.events if e[0] == 'convert']))
         self._cache[key] = (outcomes, wholes)
         return outcomes, wholes
 
